@@ -146,6 +146,47 @@ def gen_preds(rng, nprocs, depth_prune):
 FUEL = 1500
 
 
+def gen_base(rng, feat=None):
+    """system + callback + state-based predicates (no RUN line)"""
+    feat = feat or gen_features(rng)
+    sysl, nnodes, nprocs, placement = gen_system(rng, feat)
+    lines = list(sysl)
+    cb = gen_callback(rng, feat, nnodes, nprocs, placement)
+    preds = gen_preds(rng, nprocs, None)
+    return {"sys": lines, "cb": cb, "preds": preds, "feat": feat, "nprocs": nprocs, "nnodes": nnodes}
+
+
+def variant(base, sid, strategy, vm, debug=0, repeat=1, depth_prune=None):
+    preds = list(base["preds"])
+    if depth_prune is not None:
+        preds = [l for l in preds if not l.startswith("PRED PRUNE")] + ["PRED PRUNE DEPTHGT %d" % depth_prune]
+    lines = list(base["sys"]) + preds
+    for _ in range(repeat):
+        lines += list(base["cb"]) + ["RUN %s %s %d %d" % (strategy, vm, debug, FUEL)]
+    return ("MC", sid, lines)
+
+
+def staged(rng, base, sid, strategy, vm, debug=1):
+    """stage 1 collects, stage 2 continues from the collected set after a further callback"""
+    preds1 = [l for l in base["preds"] if not l.startswith("PRED COLLECT") and not l.startswith("PRED GOAL")]
+    coll = rng.choice(["PRED COLLECT DEPTHEQ %d" % rng.choice([1, 2]),
+                       "PRED COLLECT OUTBOXEQ %d 1" % rng.randrange(base["nprocs"]),
+                       "PRED COLLECT NOEVENTS"])
+    goal1 = rng.choice(["PRED GOAL NOEVENTS", "PRED GOAL DEPTHGE %d" % rng.choice([2, 3])])
+    lines = list(base["sys"]) + preds1 + [coll, goal1] + list(base["cb"])
+    lines.append("RUN %s %s %d %d" % (strategy, vm, debug, FUEL))
+    # stage 2
+    lines += ["PRED COLLECT NONE", "PRED GOAL NOEVENTS"]
+    crashed = set(l.split()[2] for l in base["cb"] if l.startswith("CB CRASH"))
+    if rng.random() < 0.5:
+        p = rng.randrange(base["nprocs"])
+        node = [l for l in base["sys"] if l.startswith("PROC %d " % p)][0].split()[2]
+        if node not in crashed:     # a local message to a crashed node trips the documented assertion
+            lines.append("CB LOCAL %s %d %s" % (node, p, gen_msg(rng)))
+    lines.append("RUNFROM %s %s %d %d" % (strategy, vm, debug, FUEL))
+    return ("MC", sid, lines)
+
+
 def gen_scenario(rng, sid, feat=None, strategy=None, vm=None, state_based=True):
     feat = feat or gen_features(rng)
     sysl, nnodes, nprocs, placement = gen_system(rng, feat)
